@@ -27,6 +27,10 @@ STATES = {
     # a second run on the same day: `adeu init` ran before (it left its backup), then the user changed / broke the file by hand
     'second_run_same_day_edited': (json.dumps({'mcpServers': {'other': {'command': 'x'}}}, indent=2).encode(),
                                    json.dumps({'mcpServers': {'other': {'command': 'x'}, 'added_by_hand': {'command': 'y'}}, 'theme': 'light'}, indent=2).encode()),
+    # the configuration file is a symbolic link into a dotfiles checkout (stow / chezmoi / home-manager): the backup must hold the previous
+    # BYTES, not be a second link to the file that is about to be rewritten
+    'symlink_abs_valid_other': {'symlink': 'abs', 'content': json.dumps({'mcpServers': {'other': {'command': 'x'}}, 'theme': 'dark'}, indent=2).encode()},
+    'symlink_rel_invalid_json': {'symlink': 'rel', 'content': b'{"mcpServers": {"other": {"command": "x"}}, "oops": }'},
     'second_run_same_day_broken': (json.dumps({'mcpServers': {'other': {'command': 'x'}}}, indent=2).encode(), b'{"mcpServers": {"other": {"command": "x"}}, "oops": }'),
 }
 
@@ -128,6 +132,11 @@ def run_case(args):
                 finally: os._exit(99)
             os.waitpid(pid0, 0)
             prev = prev[1]; open(cfg, 'wb').write(prev)
+        elif isinstance(prev, dict):      # the configuration file is a symbolic link to a file elsewhere
+            os.makedirs(cdir); real = os.path.join(home, 'dotfiles', 'claude', 'config.json'); os.makedirs(os.path.dirname(real))
+            open(real, 'wb').write(prev['content'])
+            os.symlink(real if prev['symlink'] == 'abs' else os.path.relpath(real, cdir), cfg)
+            prev = prev['content']
         elif prev is not None:
             os.makedirs(cdir); open(cfg, 'wb').write(prev)
         pid = os.fork()
@@ -258,7 +267,7 @@ def run(tier, seed):
         distinct.add((r['state'], r['local'], tuple(r['plan']) if r['plan'] else None))
         if r['plan']: dist[r['plan'][1]] += 1
         if r['fail']:
-            ck.violation('oracle', {'state': r['state'], 'previous': ((states[r['state']][1] if isinstance(states[r['state']], tuple) else states[r['state']]) or b'').decode('utf-8', 'replace') if states[r['state']] is not None else None,
+            ck.violation('oracle', {'state': r['state'], 'previous': ((states[r['state']][1] if isinstance(states[r['state']], tuple) else states[r['state']]['content'] if isinstance(states[r['state']], dict) else states[r['state']]) or b'').decode('utf-8', 'replace') if states[r['state']] is not None else None, 'config_is_symlink': isinstance(states[r['state']], dict),
                                     'local': r['local'], 'fault': r['plan'], 'exit': r['exit'], 'trace': r['trace'], 'files_after': r['files']}, r['fail'])
         tr = tuple(e for e in r['trace'] if e in ('copy', 'open_w', 'write'))
         # a planned fault is logged before it strikes: the struck effect may or may not have happened in the model
